@@ -6,7 +6,7 @@ import json, os, subprocess, sys, time
 os.environ["VERIF_EVIDENCE_DIR"] = "/tmp/verif-trial-evidence"
 os.environ["VERIF_REPLAYS_DIR"] = "/tmp/verif-trial-replays"
 V = os.path.dirname(os.path.dirname(os.path.abspath(__file__)))
-REPO = os.environ.get("VERIF_REPO", REPO)
+REPO = os.environ.get("VERIF_REPO", "/repo")
 ALL = ["C%02d" % i for i in range(1, 18)]
 def sh(cmd, cwd=None):
     return subprocess.run(cmd, shell=True, cwd=cwd, capture_output=True, text=True)
